@@ -504,7 +504,7 @@ impl Property for C09 {
         if out.stats.reuse_after_rel > 0 {
             o.class("identifier-reused-after-pubrel");
         }
-        o.fail = failure_for(&out, &["C09/", "C07/stream/message-lost", "C08/"]);
+        o.fail = failure_for(&out, &["C09/", "C07/stream/message-lost", "C08/missing-pubrec"]);
         o
     }
 }
@@ -884,7 +884,7 @@ impl Property for C13 {
                 if out.stats.cause_with_stream {
                     o.class("stream-open-at-cause");
                 }
-                o.fail = failure_for(&out, &["C13/", "C05/wrong-completion/ping", "C05/not-completed/ping"]);
+                o.fail = failure_for(&out, &["C13/", "C05/wrong-completion/disconnect", "C05/not-completed/disconnect"]);
             }
             C13Case::Connect { connack, auth, cut, err } => {
                 o.class("connect-phase");
